@@ -41,7 +41,7 @@ def plan(tier):
                 'cross-key and cross-message negatives; freshness of generated keys and IVs; plus Encrypt/Decrypt/MAC/'
                 'Sign/Verify/DeriveKey/wrapped Get round trips through the server; a cell is (function, algorithm, mode, '
                 'padding, outcome)',
-        'min_monitor': {'wrapped_gets_batched_with_a_use': 50, 'references_compared': 1000, 'roundtrips': 500, 'negatives_tried': 100, 'fresh_values': 200,
+        'min_monitor': {'wrapped_gets_batched_with_a_use': 50, 'beside_references_compared': 200, 'references_compared': 1000, 'roundtrips': 500, 'negatives_tried': 100, 'fresh_values': 200,
                         'server_sign_verify_roundtrips': 20},
         'assumptions': ['"independent use of the same cipher" = cryptography.hazmat Cipher driven by the harness with '
                         'the stated key / IV / mode and hand-written padding',
@@ -60,6 +60,7 @@ def cases(tier, seed):
     cs += [{'server_derive': i} for i in range(16 if tier == 'quick' else 64)]
     cs += [{'server_sign': i} for i in range(8 if tier == 'quick' else 32)]
     cs += [{'asym': i} for i in range(2 if tier == 'quick' else 8)]
+    cs += [{'beside': i} for i in range(12 if tier == 'quick' else 120)]
     return cs
 
 
@@ -201,8 +202,90 @@ def rb(rng, n):
     return bytes(rng.getrandbits(8) for _ in range(n))
 
 
+def run_beside(ctx, rng):
+    """Cryptographic operations of several clients at the same moment, each with keys of its own (different sizes and
+    values): Encrypt / Decrypt in the deterministic modes with caller-chosen IVs, HMAC and CMAC, RFC 3394 wrapped Gets - from
+    threads of their own with yields injected at executed lines.  Every answer is held against the independent reference for
+    THAT client's key and data (a result computed with another client's key, IV or parameters differs from it)."""
+    from kv.monitors.concurrent import run_clients
+    rig.install_clock(rig.VClock(step=0))
+    users = ['alice', 'bob', 'carol']
+    with rig.scratch_dir() as d:
+        srv = rig.Server(d + '/db.sqlite')
+        try:
+            scripts, wants = [], []
+            for u in users:
+                key = rb(rng, rng.choice((16, 24, 32)))
+                k = store.register(srv, 'sym', u, rng, value=key, masks=ALL_MASKS, state='active', names=['%s-bk' % u])
+                kek = rb(rng, rng.choice((16, 24, 32)))
+                w = store.register(srv, 'sym', u, rng, value=kek, masks=[E.CryptographicUsageMask.WRAP_KEY], state='active', names=['%s-kek' % u])
+                if k is None or w is None:
+                    ctx.unsure('setup of a C06 beside-history failed')
+                    return
+                frames, ws = [], []
+                for j in range(rng.randrange(8, 16)):
+                    kind = rng.choice(('encrypt', 'encrypt', 'decrypt', 'hmac', 'cmac', 'wrap'))
+                    data = rb(rng, rng.choice((16, 32, 48)))
+                    if kind in ('encrypt', 'decrypt'):
+                        mode = rng.choice((BM.CBC, BM.ECB, BM.CTR, BM.OFB, BM.CFB))
+                        iv = None if mode == BM.ECB else rb(rng, 16)
+                        padded = mode in (BM.CBC, BM.ECB)
+                        params = cparams(cryptographic_algorithm=CA.AES, block_cipher_mode=mode, padding_method=PM.PKCS5 if padded else None)
+                        ct = ref_encrypt(CA.AES, key, mode, iv, pad(data, 16, PM.PKCS5) if padded else data)
+                        ct = ct[0] if isinstance(ct, tuple) else ct
+                        if kind == 'encrypt':
+                            op = op_encrypt(k.uid, data, params, iv)
+                            want = (0x4200C2, ct)
+                        else:
+                            op = op_decrypt(k.uid, ct, params, iv)
+                            want = (0x4200C2, data)
+                    elif kind == 'hmac':
+                        op = op_mac(k.uid, data, cparams(cryptographic_algorithm=CA.HMAC_SHA256))
+                        want = (0x4200C6, std_hmac.new(key, data, hashlib.sha256).digest())
+                    elif kind == 'cmac':
+                        op = op_mac(k.uid, data, cparams(cryptographic_algorithm=CA.AES))
+                        want = (0x4200C6, cmac_ref(CA.AES, key, data))
+                    else:
+                        op = op_get(k.uid, wrap=wrap_spec(w.uid))
+                        want = (0x420043, keywrap_ref(kek, key))
+                    try:
+                        frames.append(rig.encode_request(rig.build_request((1, 2), [op]), (1, 2)))
+                        ws.append((kind, want))
+                    except Exception:
+                        pass
+                scripts.append(((u, None), frames))
+                wants.append(ws)
+            results, yields, finished = run_clients(srv, scripts, rng, name='kv-c06')
+            if not finished:
+                ctx.unsure('a client thread of a C06 beside-history did not finish within 90 s')
+                return
+            ctx.ev()
+            ctx.count('beside_histories')
+            ctx.count('beside_yields_injected', yields)
+            for ci, ws in enumerate(wants):
+                for j, (kind, (tag, want)) in enumerate(ws):
+                    r = results[ci][j] if j < len(results[ci]) else None
+                    ctx.count('beside_references_compared')
+                    ctx.count('references_compared')
+                    got = None
+                    if r is not None and not isinstance(r, BaseException) and r.error is None and r.ok():
+                        for _, it in T.walk(r.payload()):
+                            if it[0] == tag:
+                                got = it[2]
+                    ctx.cell('beside', kind, 'ok' if got == want else 'differs')
+                    if got != want:
+                        ctx.violation('beside|%s' % kind, 'the %s result of %s (request %d) while other clients use other keys is not the '
+                                      'reference\'s for that client\'s key and data: %s' % (kind, users[ci], j + 1,
+                                                                                          r.brief() if r is not None and not isinstance(r, BaseException) else r), None)
+                        break
+        finally:
+            srv.close()
+
+
 def run_case(ctx, case):
     rng = ctx.rng()
+    if 'beside' in case:
+        return run_beside(ctx, rng)
     ce = crypto_mod.CryptographyEngine()
     if 'enc' in case:
         run_enc(ctx, rng, ce, CA[case['enc'][0]], BM[case['enc'][1]])
